@@ -2,6 +2,28 @@
 over the shards; budgets are case counts, never time."""
 
 PROPS = {
+    "C05": {
+        "pkg": "c05", "needs_gw": True, "level": "exploration",
+        "technique": "property-based testing (rapid) over harness-owned schedules: concurrent programs on one key run inside the test process, parked at every filesystem-step hook (build tag verif) and released in a generated order; plus hook-free stress histories from real processes; oracle = attribution of every read to exactly one write + linearizability of the history (porcupine, register model)",
+        "level_text": ("(A) Scheduled mode: 2-4 concurrent operations on one key - put, multipart completion (parts uploaded beforehand), copy onto the key, "
+                       "delete, get, head - each write with its own length, content, metadata and content type; initial state absent / present; O_TMPFILE or "
+                       "named temp files; all operations through one gateway instance or spread over two instances sharing the storage (the instances live "
+                       "in the test process: the posix backend keeps no per-key state in memory, so two instances are two processes as far as the "
+                       "filesystem steps go). Every operation stops at each hook point on that key (stat, every attribute read / write by path, remove, "
+                       "linkat, rename, open ...; 10-30 points per operation) and a generated schedule (list of choices) decides which parked operation "
+                       "moves next: an interleaving is a shrinkable, replayable value. (S) Stress mode: 1-3 real gateway processes on one storage, 2-10 "
+                       "parallel clients with 1-6 operations each, no hooks, monotonic clock stamps. Oracle for both: every 200 read must carry the body, "
+                       "length, ETag, metadata and content type of one single write (else: torn read), and the history with its real-time order must be "
+                       "linearizable for a register holding 'absent' or a write (refused writes / deletes may or may not have taken effect)."),
+        "level_note": "interleavings are explored at hook granularity (steps between two hooks are atomic for the explorer); the stress mode does not depend on hook placement. Versioned buckets and the sidecar metadata store are not part of this check. Exploration only.",
+        "rule": ("case = (temp-file strategy, gateways, initial state, operations, schedule). Non-trivial: at least two operations were in flight together "
+                 "(A) / a write overlapped another client's operation (S); distinct by the full case including the schedule."),
+        "assumptions": ["in-process instances replicate the runGateway wiring; goroutine identity = request identity (fasthttp serves a connection on the calling goroutine)"],
+        "jobs": [
+            {"run": "TestC05A", "quick": 4000, "thorough": 400000, "shards_quick": 8, "shards_thorough": 16},
+            {"run": "TestC05S", "quick": 240, "thorough": 12000, "shards_quick": 4, "shards_thorough": 8},
+        ],
+    },
     "C18": {
         "pkg": "c18", "needs_gw": True, "level": "exploration",
         "technique": "property-based differential testing (rapid): generated S3 programs issued to an endpoint directly and to a versitygw s3-proxy in front of an identical endpoint (real processes, http / https, with and without --disable-checksum); oracle = equality of the normalised responses step by step",
@@ -376,4 +398,4 @@ for _p in ["C%02d" % i for i in range(1, 21)]:
         NOT_APPLICABLE[_p] = "check under construction in this session; not claimed until it is sound and silent on the unchanged tree"
 
 # commits in /repo that add build-tag-guarded hooks
-HOOK_COMMITS = []
+HOOK_COMMITS = ["35a7129", "a9d736d"]
